@@ -389,3 +389,10 @@ def rules(t):
     out = _rules_c09d(t)
     out.append(refusal_only_for_new(t))
     return out
+
+_rules_c09_w5 = rules
+def rules(t):
+    import rules.wave5 as W5
+    out = _rules_c09_w5(t)
+    out.append(W5.ack_dispatch(t, "C09.j"))
+    return out
